@@ -652,6 +652,9 @@ def burst_family(*kinds):
 
 
 PROPS["C02"]["families"].append(burst_family("reply", "deadline", "fault"))
+# the server's and the handlers' wake-ups: the request stream alone (Inv_C02s: everything pushed is read, a closed peer is
+# noticed, at settle points) and real client -> server -> handler chains (nothing pending at quiescence)
+PROPS["C02"]["families"].append(server_family([], 1500, 20000, {"fresh": 1}))
 PROPS["C03"]["families"].append(burst_family("abandon"))
 PROPS["C05"]["families"].append(burst_family("deadline"))
 PROPS["C09"]["families"].append(burst_family("fault"))
@@ -826,6 +829,7 @@ def chain_model(**over):
                 properties=["Live_Cascade"], coverage=False)
 
 
+PROPS["C02"]["families"].append(dict(chain_family(600, 12000), tag="chain"))
 for _p in ("C04", "C07", "C18"):
     PROPS[_p]["models"].append(chain_model())
     PROPS[_p]["families"].append(chain_family(600, 12000))
